@@ -169,6 +169,171 @@ async fn run_case(dir: &std::path::Path, case: &Value) -> Vec<Value> {
             ev.push(json!({"ev": "fconc", "threads": threads, "streams": threads * reps, "chunks": chunks,
                            "bad_chunks": bad, "short_or_failed": short}));
         }
+        "oddfile" => {
+            // a regular file whose reads come back short without being at end of file (kernel-generated
+            // files under /sys do that: one page or less per read).  Its content is not ours, so the
+            // harness reads it once with std (read_to_end) and records, for each stream and for each
+            // single-range response, whether the bytes equal that reference at the same offsets.
+            let path = case["path"].as_str().unwrap_or("/sys/kernel/btf/vmlinux");
+            let reference = std::fs::File::open(path).ok().and_then(|mut f| {
+                use std::io::Read;
+                let mut v = Vec::new();
+                f.read_to_end(&mut v).ok().map(|_| v)
+            });
+            let meta = std::fs::metadata(path).ok();
+            let usable = match (&reference, &meta) {
+                (Some(r), Some(m)) => m.is_file() && r.len() as u64 == m.len() && r.len() > 0,
+                _ => false,
+            };
+            if !usable {
+                ev.push(json!({"ev": "fskip", "why": "no such file here, or its size is not its length", "path": path}));
+                return ev;
+            }
+            let reference = reference.unwrap();
+            let size = reference.len() as u64;
+            let open = || Crf::new(std::fs::File::open(path).unwrap(), http::HeaderMap::new());
+            let waker = std::task::Waker::from(std::sync::Arc::new(crate::serve_eng::FlagWaker(std::sync::atomic::AtomicBool::new(false))));
+            let (mut streams, mut chunks, mut bad, mut short, mut serve_bad, mut empty) = (0u64, 0u64, 0u64, 0u64, 0u64, 0u64);
+            for r in case["ranges"].as_array().cloned().unwrap_or_default() {
+                // ranges are given in permille of the length plus an offset, so that they fit any file
+                let a = (size * r[0].as_u64().unwrap_or(0) / 1000 + r[1].as_u64().unwrap_or(0)).min(size);
+                let b = (a + r[2].as_u64().unwrap_or(1)).min(size);
+                let Ok(crf) = open() else { short += 1; continue };
+                streams += 1;
+                let mut st = crf.get_range(a..b);
+                let mut pos = a;
+                let mut polls = 0u64;
+                loop {
+                    polls += 1;
+                    if polls > 64 + (b - a) / 16 {
+                        short += 1;
+                        break;
+                    }
+                    let x = std::future::poll_fn(|_| {
+                        let mut cx = std::task::Context::from_waker(&waker);
+                        Poll::Ready(catch(|| st.as_mut().poll_next(&mut cx)))
+                    })
+                    .await;
+                    match x {
+                        Ok(Poll::Ready(Some(Ok(mut d)))) => {
+                            let mut v = vec![0u8; d.remaining()];
+                            d.copy_to_slice(&mut v);
+                            chunks += 1;
+                            if v.is_empty() {
+                                empty += 1;
+                            }
+                            let end = pos as usize + v.len();
+                            if end > b as usize || reference[pos as usize..end] != v[..] {
+                                bad += 1;
+                            }
+                            pos = end as u64;
+                        }
+                        Ok(Poll::Ready(Some(Err(_)))) | Err(_) => { short += 1; break; }
+                        Ok(Poll::Ready(None)) => { if pos != b { short += 1; } break; }
+                        Ok(Poll::Pending) => {}
+                    }
+                }
+                if b > a {
+                    let Ok(crf) = open() else { serve_bad += 1; continue };
+                    let req = http::Request::builder().method("GET").uri("/")
+                        .header("range", format!("bytes={}-{}", a, b - 1)).body(()).unwrap();
+                    let resp = http_serve::serve(crf, &req);
+                    let want_cr = format!("bytes {}-{}/{}", a, b - 1, size);
+                    let head_ok = resp.status().as_u16() == 206
+                        && resp.headers().get("content-range").map(|v| v.as_bytes() == want_cr.as_bytes()).unwrap_or(false);
+                    let mut body = Box::pin(resp.into_body());
+                    let mut got: Vec<u8> = Vec::new();
+                    let mut ok = true;
+                    let mut polls = 0u64;
+                    loop {
+                        polls += 1;
+                        if polls > 64 + (b - a) / 16 { ok = false; break; }
+                        let x = std::future::poll_fn(|_| {
+                            let mut cx = std::task::Context::from_waker(&waker);
+                            Poll::Ready(catch(|| Pin::as_mut(&mut body).poll_frame(&mut cx)))
+                        })
+                        .await;
+                        match x {
+                            Ok(Poll::Ready(Some(Ok(fr)))) => {
+                                if let Ok(mut d) = fr.into_data() {
+                                    let mut v = vec![0u8; d.remaining()];
+                                    d.copy_to_slice(&mut v);
+                                    got.extend_from_slice(&v);
+                                }
+                            }
+                            Ok(Poll::Ready(None)) => break,
+                            Ok(Poll::Pending) => {}
+                            _ => { ok = false; break; }
+                        }
+                    }
+                    if !head_ok || !ok || got[..] != reference[a as usize..b as usize] {
+                        serve_bad += 1;
+                    }
+                }
+            }
+            ev.push(json!({"ev": "fcmp", "path": path, "size": limbs(size), "streams": streams, "chunks": chunks, "bad_chunks": bad,
+                           "empty_chunks": empty, "short_or_failed": short, "serve_bad": serve_bad}));
+        }
+        "sparse" => {
+            // a file of several GiB made of one hole (no data blocks): lengths and offsets beyond
+            // 2^32, polled for its first few chunks only.  Every byte of it is zero.
+            let size = case["size"].as_u64().unwrap_or(1 << 32);
+            let a = case["a"].as_u64().unwrap_or(0);
+            let b = case["b"].as_u64().unwrap_or(size);
+            let npolls = case["polls"].as_u64().unwrap_or(4);
+            let mt = (case["mt_s"].as_u64().unwrap_or(1_000_000_000), case["mt_ns"].as_u64().unwrap_or(0) as u32);
+            let made = std::fs::File::create(&p).and_then(|f| {
+                f.set_len(size)?;
+                f.set_modified(SystemTime::UNIX_EPOCH + Duration::new(mt.0, mt.1))?;
+                f.sync_all()?;
+                f.metadata()
+            });
+            let sparse_ok = matches!(&made, Ok(m) if m.len() == size && m.blocks() < 1024);
+            if !sparse_ok {
+                let _ = std::fs::remove_file(&p);
+                ev.push(json!({"ev": "fskip", "why": "no sparse files here", "path": p.to_string_lossy()}));
+                return ev;
+            }
+            let f = std::fs::File::open(&p).unwrap();
+            let meta = f.metadata().unwrap();
+            let crf = match catch(|| Crf::new(f, http::HeaderMap::new())) {
+                Ok(Ok(c)) => c,
+                Ok(Err(e)) => { ev.push(json!({"ev": "fopen", "ok": false, "err": e.to_string()})); let _ = std::fs::remove_file(&p); return ev; }
+                Err(m) => { ev.push(json!({"ev": "fopen", "ok": false, "err": format!("panic: {m}")})); let _ = std::fs::remove_file(&p); return ev; }
+            };
+            let (ls, lns) = crf.last_modified().map(secs_ns).unwrap_or((-1, 0));
+            ev.push(json!({"ev": "fopen", "ok": true, "size": 0, "sizeL": limbs(size), "len": limbs(crf.len()), "lm_s": ls, "lm_ns": lns,
+                           "mt_s": meta.mtime(), "mt_ns": meta.mtime_nsec(), "etag": etag_facts(&crf.etag()), "a": 0, "b": 0,
+                           "aL": limbs(a), "bL": limbs(b), "sparse": true, "via": false}));
+            let waker = std::task::Waker::from(std::sync::Arc::new(crate::serve_eng::FlagWaker(std::sync::atomic::AtomicBool::new(false))));
+            let mut s = crf.get_range(a..b);
+            let mut got = 0u64;
+            for _ in 0..npolls {
+                let r = std::future::poll_fn(|_| {
+                    let mut cx = std::task::Context::from_waker(&waker);
+                    Poll::Ready(catch(|| s.as_mut().poll_next(&mut cx)))
+                })
+                .await;
+                match r {
+                    Err(m) => { ev.push(json!({"ev": "fpoll", "res": "panic", "n": 0, "runs": [], "z": false, "msg": m})); break; }
+                    Ok(Poll::Pending) => ev.push(json!({"ev": "fpoll", "res": "pending", "n": 0, "runs": [], "z": false})),
+                    Ok(Poll::Ready(None)) => { ev.push(json!({"ev": "fpoll", "res": "end", "n": 0, "runs": [], "z": false})); break; }
+                    Ok(Poll::Ready(Some(Err(e)))) => { ev.push(json!({"ev": "fpoll", "res": "err", "n": 0, "runs": [], "z": false, "msg": e.to_string()})); break; }
+                    Ok(Poll::Ready(Some(Ok(mut d)))) => {
+                        let mut v = vec![0u8; d.remaining()];
+                        d.copy_to_slice(&mut v);
+                        got += v.len() as u64;
+                        ev.push(json!({"ev": "fpoll", "res": "data", "n": v.len(), "runs": [], "z": v.iter().all(|&c| c == 0)}));
+                        if got > (1 << 27) {
+                            break;
+                        }
+                    }
+                }
+            }
+            drop(s);
+            let _ = std::fs::remove_file(&p);
+            ev.push(json!({"ev": "fend"}));
+        }
         "echo" => {
             // two-request history over a real file (C14): validators copied verbatim from the first
             // response into the second request
@@ -289,7 +454,7 @@ async fn run_case(dir: &std::path::Path, case: &Value) -> Vec<Value> {
             let (ls, lns) = crf.last_modified().map(secs_ns).unwrap_or((-1, 0));
             ev.push(json!({"ev": "fopen", "ok": true, "size": size, "len": limbs(crf.len()), "lm_s": ls, "lm_ns": lns,
                            "mt_s": meta.mtime(), "mt_ns": meta.mtime_nsec(), "etag": etag_facts(&crf.etag()), "a": a, "b": b,
-                           "via": kind == "serve"}));
+                           "sizeL": limbs(size), "aL": limbs(a), "bL": limbs(b), "sparse": false, "via": kind == "serve"}));
             let waker = std::task::Waker::from(std::sync::Arc::new(crate::serve_eng::FlagWaker(std::sync::atomic::AtomicBool::new(false))));
             let max_polls = 64 + 2 * ((b.saturating_sub(a)) / 65536 + 1);
             if kind == "serve" {
@@ -311,7 +476,7 @@ async fn run_case(dir: &std::path::Path, case: &Value) -> Vec<Value> {
                         }
                     }
                     if k >= max_polls {
-                        ev.push(json!({"ev": "fpoll", "res": "maxpolls", "n": 0, "runs": []}));
+                        ev.push(json!({"ev": "fpoll", "res": "maxpolls", "n": 0, "runs": [], "z": false}));
                         break;
                     }
                     k += 1;
@@ -321,15 +486,15 @@ async fn run_case(dir: &std::path::Path, case: &Value) -> Vec<Value> {
                     })
                     .await;
                     match r {
-                        Err(m) => { ev.push(json!({"ev": "fpoll", "res": "panic", "n": 0, "runs": [], "msg": m})); break; }
-                        Ok(Poll::Pending) => ev.push(json!({"ev": "fpoll", "res": "pending", "n": 0, "runs": []})),
-                        Ok(Poll::Ready(None)) => { ev.push(json!({"ev": "fpoll", "res": "end", "n": 0, "runs": []})); break; }
-                        Ok(Poll::Ready(Some(Err(e)))) => { ev.push(json!({"ev": "fpoll", "res": "err", "n": 0, "runs": [], "msg": e.to_string()})); break; }
+                        Err(m) => { ev.push(json!({"ev": "fpoll", "res": "panic", "n": 0, "runs": [], "z": false, "msg": m})); break; }
+                        Ok(Poll::Pending) => ev.push(json!({"ev": "fpoll", "res": "pending", "n": 0, "runs": [], "z": false})),
+                        Ok(Poll::Ready(None)) => { ev.push(json!({"ev": "fpoll", "res": "end", "n": 0, "runs": [], "z": false})); break; }
+                        Ok(Poll::Ready(Some(Err(e)))) => { ev.push(json!({"ev": "fpoll", "res": "err", "n": 0, "runs": [], "z": false, "msg": e.to_string()})); break; }
                         Ok(Poll::Ready(Some(Ok(fr)))) => {
                             if let Ok(mut d) = fr.into_data() {
                                 let mut v = vec![0u8; d.remaining()];
                                 d.copy_to_slice(&mut v);
-                                ev.push(json!({"ev": "fpoll", "res": "data", "n": v.len(), "runs": runs(&v)}));
+                                ev.push(json!({"ev": "fpoll", "res": "data", "n": v.len(), "runs": runs(&v), "z": false}));
                             }
                         }
                     }
@@ -347,7 +512,7 @@ async fn run_case(dir: &std::path::Path, case: &Value) -> Vec<Value> {
                         }
                     }
                     if k >= max_polls {
-                        ev.push(json!({"ev": "fpoll", "res": "maxpolls", "n": 0, "runs": []}));
+                        ev.push(json!({"ev": "fpoll", "res": "maxpolls", "n": 0, "runs": [], "z": false}));
                         break;
                     }
                     k += 1;
@@ -357,14 +522,14 @@ async fn run_case(dir: &std::path::Path, case: &Value) -> Vec<Value> {
                     })
                     .await;
                     match r {
-                        Err(m) => { ev.push(json!({"ev": "fpoll", "res": "panic", "n": 0, "runs": [], "msg": m})); break; }
-                        Ok(Poll::Pending) => ev.push(json!({"ev": "fpoll", "res": "pending", "n": 0, "runs": []})),
-                        Ok(Poll::Ready(None)) => { ev.push(json!({"ev": "fpoll", "res": "end", "n": 0, "runs": []})); break; }
-                        Ok(Poll::Ready(Some(Err(e)))) => { ev.push(json!({"ev": "fpoll", "res": "err", "n": 0, "runs": [], "msg": e.to_string()})); break; }
+                        Err(m) => { ev.push(json!({"ev": "fpoll", "res": "panic", "n": 0, "runs": [], "z": false, "msg": m})); break; }
+                        Ok(Poll::Pending) => ev.push(json!({"ev": "fpoll", "res": "pending", "n": 0, "runs": [], "z": false})),
+                        Ok(Poll::Ready(None)) => { ev.push(json!({"ev": "fpoll", "res": "end", "n": 0, "runs": [], "z": false})); break; }
+                        Ok(Poll::Ready(Some(Err(e)))) => { ev.push(json!({"ev": "fpoll", "res": "err", "n": 0, "runs": [], "z": false, "msg": e.to_string()})); break; }
                         Ok(Poll::Ready(Some(Ok(mut d)))) => {
                             let mut v = vec![0u8; d.remaining()];
                             d.copy_to_slice(&mut v);
-                            ev.push(json!({"ev": "fpoll", "res": "data", "n": v.len(), "runs": runs(&v)}));
+                            ev.push(json!({"ev": "fpoll", "res": "data", "n": v.len(), "runs": runs(&v), "z": false}));
                         }
                     }
                 }
